@@ -130,6 +130,20 @@ def _check(case):
     require(not is_raised(kept) and float(kept[0]) == g0[0] and float(kept[1]) == g0[1],
             "activity coefficients returned for x=%r changed to %r after later calls (were %r)", x, kept, g0)
 
+    # the same whole-kelvin temperature stated as float, Python int or numpy integer is the same temperature
+    import numpy
+
+    ti = int(round(t))
+    for fn_name, fn in (("calculate_activity_coefficients", lambda tt: calculate_activity_coefficients(tt, mix, build.composition(x, "molar"), mdl)),
+                        ("get_partial_pressures", lambda tt: get_partial_pressures(tt, mix, build.composition(x, "molar"), mdl))):
+        ref_t = call(fn, float(ti))
+        if is_raised(ref_t) or not all(math.isfinite(float(v)) for v in ref_t):
+            continue
+        for label, form in (("int", ti), ("numpy.int64", numpy.int64(ti))):
+            got_t = call(fn, form)
+            require(not is_raised(got_t) and all(abs(float(a) - float(b)) <= 1e-12 * abs(float(b)) for a, b in zip(got_t, ref_t)),
+                    "%s at %r K given as %s = %r, given as float %r", fn_name, ti, label, got_t, ref_t)
+
     # (a) Gibbs-Duhem
     h = min(1e-4, x / 4, (1 - x) / 4)
     res, terms = gd_residual(lng, x, h)
